@@ -233,6 +233,47 @@ func drawMassScript(rt *rapid.T) sess.Script {
 	return sc
 }
 
+// drawBacklogScript: a backlog of n operations (n around powers of two up to 4097), each held
+// for its own missing group, builds up; then unrelated entries are installed (every install
+// makes the server look at the whole backlog again) and a few of the backlog are released one
+// by one. Nothing is ever released in bulk, so the cost stays linear in n per step.
+func drawBacklogScript(rt *rapid.T) sess.Script {
+	sc := sess.Script{FwdRefs: true}
+	fib := int32(rapid.IntRange(0, 1).Draw(rt, "fib"))
+	id1 := gen.ID128{Lo: 5}
+	sc.Steps = append(sc.Steps, sess.Step{S: 0, K: "params", P: &sess.ParamSpec{Red: 1, Persist: 1, Ack: fib}}, sess.Step{S: 0, K: "elec", ID: &id1})
+	sizes := []int{255, 256, 257, 511, 512, 513, 1023, 1024, 1025, 2047, 2048, 2049, 4095, 4096, 4097}
+	n := sizes[rapid.IntRange(0, len(sizes)-1).Draw(rt, "backlog")]
+	opid := uint64(0)
+	mk := func(o *gen.Op) *gen.Op {
+		opid++
+		o.ID = opid
+		st := id1
+		o.Elec = &st
+		return o
+	}
+	sc.Steps = append(sc.Steps, sess.Step{S: 0, K: "ops", Ops: []*gen.Op{mk(&gen.Op{NI: "DEFAULT", Kind: gen.NH, Act: gen.ADD, Key: "1", IP: "192.0.2.1"})}})
+	var ops []*gen.Op
+	for i := 0; i < n; i++ {
+		ops = append(ops, mk(&gen.Op{NI: hgen.NIs[i%3], Kind: gen.V4, Act: gen.ADD, Key: fmt.Sprintf("10.%d.%d.0/24", i/250, i%250), Group: uint64(1000 + i), GroupNI: "DEFAULT"}))
+	}
+	per := rapid.IntRange(200, 1100).Draw(rt, "fill-batch")
+	for len(ops) > 0 {
+		k := min(per, len(ops))
+		sc.Steps = append(sc.Steps, sess.Step{S: 0, K: "ops", Ops: ops[:k]})
+		ops = ops[k:]
+	}
+	for j := rapid.IntRange(1, 3).Draw(rt, "events"); j > 0; j-- {
+		if rapid.Bool().Draw(rt, "unrelated") {
+			sc.Steps = append(sc.Steps, sess.Step{S: 0, K: "ops", Ops: []*gen.Op{mk(&gen.Op{NI: "DEFAULT", Kind: gen.NH, Act: gen.ADD, Key: fmt.Sprint(2 + j), IP: "192.0.2.9"})}})
+		} else {
+			g := uint64(1000 + rapid.IntRange(0, n-1).Draw(rt, "release"))
+			sc.Steps = append(sc.Steps, sess.Step{S: 0, K: "ops", Ops: []*gen.Op{mk(&gen.Op{NI: "DEFAULT", Kind: gen.NHG, Act: gen.ADD, Key: fmt.Sprint(g), Hops: []gen.Hop{{Index: 1}}})}})
+		}
+	}
+	return sc
+}
+
 func TestCampaign(t *testing.T) {
 	setup()
 	col := ev.C()
@@ -248,6 +289,13 @@ func TestCampaign(t *testing.T) {
 			// one case in four is a mass script (they are 10-50 times as expensive), the rest are ordinary ones
 			mass := rapid.IntRange(0, 3).Draw(rt, "mass?") == 2
 			var c Case
+			if rapid.IntRange(0, 79).Draw(rt, "backlog?") == 33 {
+				c = Case{Script: drawBacklogScript(rt)}
+				v := runCase(c)
+				v.Class("held-backlog")
+				col.Check(rt, ev.JSON(c), v)
+				return
+			}
 			if mass {
 				c = Case{Script: drawMassScript(rt)}
 			} else {
